@@ -22,4 +22,5 @@ CONF = {
                     'hash/crc32 IEEE as the bitwise algorithm of the model', 'a RadioTapNamespace value is represented by the little-endian octets of its fields (bijection done by the harness)'],
     'trusted_base': ['model: coq/Model/LradiotapModel.v is a hand transcription of layers/radiotap.go (align, DecodeFromBytes, decodeRadioTapNamespace, decodeVendorNamespace, SerializeTo, serializeTo x2) as repaired by the fix: commits of agent-fixer and agent-ldot11'],
     'explanation': 'Theorems over all byte strings / layer values about the Gallina model of the RadioTap codec: decoder (no panic, fuel bound of the Present chain, fresh = reused) and serializer (no panic, junk freedom); the round trip is stated (C06_radiotap_roundtrip_statement) and tested; correspondence ties the model to layers/radiotap.go. C08-style checksums: none (ComputeChecksums is ignored by RadioTap).',
+    'mutations_tried': ['drop the RadioTapValues reset (caught)', 'Channel fits(4)->fits(2) (caught)', 'serializer drops RxFlags alignment (caught)', 'vendor skip check > -> >= (caught)', 'AMPDU alignment 4->8 in the decoder (caught)', 'serializer scratch size omits SkipLength (caught)'],
 }
